@@ -48,6 +48,8 @@ class _RedisConsumer(ConsumerT):
         self.consume_task: asyncio.Task | None = None
         # message which is taken from redis, but isn't in the local queue yet
         self._in_hand: tuple[RoutingKeyT, str, ParametersT] | None = None
+        # key of the message which was returned by the latest `consume` call
+        self._last_consumed: RoutingKeyT | None = None
 
     async def start(self) -> None:
         self.consume_task = asyncio.create_task(self.backgroud_consume())
@@ -65,17 +67,24 @@ class _RedisConsumer(ConsumerT):
             self.consume_task.cancel()
             # wait for a fetch which is in progress: its message would stay marked as processing
             await asyncio.wait({self.consume_task})
-        rejects = []
+        to_reject: dict[str, RoutingKeyT] = {}
+        if self._last_consumed is not None:
+            # the caller of `consume` could have been cancelled before it has received the message
+            # (rejecting a message which is settled already does nothing)
+            to_reject[self._last_consumed.id_] = self._last_consumed
+            self._last_consumed = None
         if self._in_hand is not None:
-            rejects.append(self.broker.reject(self._in_hand[0]))
+            to_reject[self._in_hand[0].id_] = self._in_hand[0]
             self._in_hand = None
         while self.queue.qsize() > 0:
             key, _, _ = self.queue.get_nowait()
-            rejects.append(self.broker.reject(key))
-        await asyncio.gather(*rejects)
+            to_reject[key.id_] = key
+        await asyncio.gather(*(self.broker.reject(key) for key in to_reject.values()))
 
     async def consume(self) -> tuple[RoutingKeyT, str, ParametersT]:
-        return await self.queue.get()
+        msg = await self.queue.get()
+        self._last_consumed = msg[0]
+        return msg
 
     async def backgroud_consume(self) -> None:
         while True:
